@@ -537,3 +537,88 @@ def expand_unpacked(cfg, at_ast, expr):
                     return ast.copy_location(ast.Subscript(value=copy.deepcopy(st.value), slice=ast.Constant(value=names.index(node.id)), ctx=ast.Load()), node)
             return node
     return _Sub().visit(expand_locals(cfg, at_ast, expr))
+
+
+def field_write_summaries(eng):
+    """fid -> set of attribute names the function can write (X.attr = .., X.attr[..] = .., X.attr op= ..), directly or through resolved internal calls
+    (transitive closure; receiver classes are not distinguished -- an over-approximation of the effect)."""
+    cache = getattr(eng, "_field_write_summaries", None)
+    if cache is not None:
+        return cache
+    direct = {}
+    for fi in eng.prog.functions.values():
+        w = set()
+        for node in eng.prog.own_nodes(fi):
+            tg = node.targets if isinstance(node, ast.Assign) else ([node.target] if isinstance(node, (ast.AugAssign, ast.AnnAssign)) else [])
+            for t in tg:
+                for el in (t.elts if isinstance(t, (ast.Tuple, ast.List)) else [t]):
+                    r = el
+                    while isinstance(r, ast.Subscript):
+                        r = r.value
+                    if isinstance(r, ast.Attribute):
+                        w.add(r.attr)
+        direct[fi.fid] = w
+    may = dict((k, set(v)) for k, v in direct.items())
+    changed = True
+    while changed:
+        changed = False
+        for fi in eng.prog.functions.values():
+            for ci in eng.calls_in(fi):
+                for t in ci.targets:
+                    if t.fid in may and not may[t.fid] <= may[fi.fid]:
+                        may[fi.fid] |= may[t.fid]
+                        changed = True
+    eng._field_write_summaries = may
+    return may
+
+
+def storage_version(eng, fi, cfg, loc, exprs):
+    """A label for "the values of the names / attributes mentioned in `exprs` as seen at CFG node `loc`": the set of statements of fi that can write one of them
+    (assignment to the name / the attribute, or a resolved internal call whose effect summary writes the attribute) and from which `loc` can be reached.
+    Two evaluations of the same expression text are the same proposition only if their labels agree (no write can separate them); a writer that shares a loop
+    with `loc` makes the label unique to `loc`."""
+    names, attrs = set(), set()
+    for e in exprs:
+        if e is None:
+            continue
+        for sub in ast.walk(e):
+            if isinstance(sub, ast.Attribute):
+                attrs.add(sub.attr)
+            elif isinstance(sub, ast.Name):
+                names.add(sub.id)
+    summ = field_write_summaries(eng)
+    writers = []
+    for n, d in cfg.g.nodes(data=True):
+        st = d.get("ast")
+        if st is None or d.get("kind") not in ("stmt", "cond"):
+            continue
+        hit = False
+        if d.get("kind") == "stmt":
+            tg = st.targets if isinstance(st, ast.Assign) else ([st.target] if isinstance(st, (ast.AugAssign, ast.AnnAssign)) else [])
+            for t in tg:
+                for el in (t.elts if isinstance(t, (ast.Tuple, ast.List)) else [t]):
+                    r = el
+                    while isinstance(r, ast.Subscript):
+                        r = r.value
+                    if isinstance(r, ast.Attribute) and r.attr in attrs:
+                        hit = True
+                    if isinstance(r, ast.Name) and r.id in names:
+                        hit = True
+        if not hit and attrs:
+            for sub in ast.walk(st):
+                if isinstance(sub, ast.Call):
+                    ci = eng.res.calls.get(id(sub))
+                    if ci is not None and any(summ.get(t.fid, set()) & attrs for t in ci.targets):
+                        hit = True
+                        break
+        if hit:
+            writers.append(n)
+    label = []
+    for w in writers:
+        if w == loc:
+            continue
+        if cfg.path_avoiding(w, loc, []) is not None:
+            if cfg.path_avoiding(loc, w, []) is not None:
+                return "@%s" % (loc,)           # writer and reader share a cycle: unique
+            label.append(w)
+    return "v" + ",".join(str(x) for x in sorted(label, key=str))
